@@ -539,8 +539,12 @@ void parsec_remote_dep_memcpy(parsec_execution_stream_t* es,
                               parsec_dep_data_description_t* data)
 {
     assert( dst );
-    /* if the communication engine supports multithread do the reshaping in place */
-    if( parsec_ce.parsec_context->flags & PARSEC_CONTEXT_FLAG_COMM_MT ) {
+    /* if the communication engine supports multithread do the reshaping in place.
+     * The engine's reshape entry point only exists once the engine has been enabled,
+     * which in a single process run happens when the main thread enters a wait: a
+     * worker can complete a task before that; it then defers the copy like the
+     * non multithreaded case does. */
+    if( (parsec_ce.parsec_context->flags & PARSEC_CONTEXT_FLAG_COMM_MT) && (NULL != parsec_ce.reshape) ) {
         if( 0 == parsec_ce.reshape(&parsec_ce, es,
                                    dst, data->local.dst_displ, data->local.dst_datatype, data->local.dst_count,
                                    src, data->local.src_displ, data->local.src_datatype, data->local.src_count) ) {
